@@ -77,10 +77,10 @@ class Job:
         return h.digest()
 
     def entry_name(self):
-        return self.entry if self.entry != "part" else "part:" + self.part
+        return self.entry if self.entry not in ("part", "partraw") else self.entry + ":" + self.part
 
     def cost(self):
-        return 8 + (len(self.input) + len(self.ctx)) // 200
+        return 8 + (len(self.input) + len(self.ctx)) // 30
 
     def line(self, jid):
         def e(b):
@@ -101,9 +101,19 @@ class Job:
         return o
 
 
+ENTRY_ALIAS = {"parse_XTA": "xta", "parse_XTA_part": "partraw", "parse_XTA_part_in_context": "part", "parseProperty": "prop",
+               "parse_XML_buffer": "xmlbuf", "parse_XML_file": "xmlfile"}
+
+
 def job_from_replay(o):
-    return Job(o.get("family", "replay"), o["entry"], o["newxta"], o["builder"], o.get("part", "-"),
-               base64.b64decode(o.get("ctx_b64", "")), base64.b64decode(o["input_b64"]))
+    """accepts full replay objects and minimal ones {"entry","newxta","builder","part","input_b64" | "input_text"}"""
+    inp = base64.b64decode(o["input_b64"]) if o.get("input_b64") is not None else o.get("input_text", "").encode("utf-8", "surrogateescape")
+    entry = ENTRY_ALIAS.get(o["entry"], o["entry"])
+    part = o.get("part") or "-"
+    if entry == "xta" and part not in ("-", "S_XTA"):
+        entry = "part"
+    ctx = base64.b64decode(o["ctx_b64"]) if o.get("ctx_b64") else o.get("ctx_text", "").encode()
+    return Job(o.get("family", "replay"), entry, o.get("newxta", True), o.get("builder", "doc"), part, ctx, inp)
 
 
 class Res:
@@ -126,8 +136,13 @@ class Runner:
         self.b = b
         self.exe = core.build_harness(b, "c01", ["c01.cpp"])
         self.log = log or (lambda *a: None)
-        os.makedirs(SCRATCH_ROOT, exist_ok=True)
-        self.dir = os.path.join(SCRATCH_ROOT, "run-%d" % os.getpid())
+        root = SCRATCH_ROOT
+        try:
+            os.makedirs(root, exist_ok=True)
+        except OSError:
+            root = os.path.join(core.CACHE, "c01-scratch")
+            os.makedirs(root, exist_ok=True)
+        self.dir = os.path.join(root, "run-%d" % os.getpid())
         shutil.rmtree(self.dir, ignore_errors=True)
         os.makedirs(self.dir)
         self.seq = 0
@@ -136,7 +151,7 @@ class Runner:
         self.env = dict(os.environ)
         self.env["ASAN_OPTIONS"] = (core.SAN_ENV["ASAN_OPTIONS"] + ":detect_stack_use_after_return=0:handle_segv=1:handle_abort=1"
                                     ":handle_sigfpe=1:handle_sigill=1:handle_sigbus=1:symbolize=0:exitcode=77"
-                                    ":fast_unwind_on_fatal=0:hard_rss_limit_mb=12000:disable_coredump=1")
+                                    ":fast_unwind_on_fatal=0:hard_rss_limit_mb=12000:disable_coredump=1:clear_shadow_mmap_threshold=268435456")
         self.env["UBSAN_OPTIONS"] = core.SAN_ENV["UBSAN_OPTIONS"] + ":symbolize=0:exitcode=77"
         self.env["UTAP_VERIF_NO_DLOPEN"] = "1"
         self.stack_limit = None
@@ -177,27 +192,32 @@ class Runner:
         return out
 
     def run(self, jobs, mult=1, nproc=None, batch=120):
-        """Run all jobs; returns a list of Res aligned with jobs.  Heavy jobs first, small batches, NCPU processes."""
+        """Run all jobs; returns a list of Res aligned with jobs.  Heavy jobs first, small batches, NCPU processes.
+        `mult` (budget multiplier) may be a list with one entry per job."""
         nproc = nproc or core.NCPU
-        order = sorted(range(len(jobs)), key=lambda i: (-jobs[i].cost(), i))
-        batches, cur, curcost = [], [], 0
-        for i in order:
-            c = jobs[i].cost()
-            if cur and (len(cur) >= batch or curcost + c > 4000):
-                batches.append(cur)
-                cur, curcost = [], 0
-            cur.append((i, jobs[i]))
-            curcost += c
-        if cur:
-            batches.append(cur)
+        mults = mult if isinstance(mult, (list, tuple)) else [mult] * len(jobs)
+        batches = []
+        for m in sorted(set(mults)):
+            order = sorted((i for i in range(len(jobs)) if mults[i] == m), key=lambda i: (-jobs[i].cost(), i))
+            cur, curcost = [], 0
+            for i in order:
+                c = jobs[i].cost()
+                if cur and (len(cur) >= batch or curcost + c > 3000):
+                    batches.append((curcost, m, cur))
+                    cur, curcost = [], 0
+                cur.append((i, jobs[i]))
+                curcost += c
+            if cur:
+                batches.append((curcost, m, cur))
+        batches.sort(key=lambda t: (-t[0], t[2][0][0]))
         results = [None] * len(jobs)
         with ThreadPoolExecutor(nproc) as ex:
-            for got in ex.map(lambda it: self._run_batch(it, mult), batches):
+            for got in ex.map(lambda t: self._run_batch(t[2], t[1]), batches):
                 for i, r in got.items():
                     results[i] = r
         lost = [i for i, r in enumerate(results) if r is None]
         for i in lost:  # the harness parent itself died or was cut short: run the input alone
-            got = self._run_batch([(i, jobs[i])], mult)
+            got = self._run_batch([(i, jobs[i])], mults[i])
             results[i] = got.get(i) or Res("crash:harness-lost", "-", 0, 0)
         return results
 
@@ -252,7 +272,7 @@ ACCESSOR = re.compile(r"Fragments::|::operator\[\]|^std::|^__gnu|^operator |^__|
 
 
 def short_name(func):
-    f = func.replace("(anonymous namespace)", "anon")
+    f = re.sub(r"\[abi:[^\]]*\]", "", func.replace("(anonymous namespace)", "anon"))
     depth, out = 0, []
     i = 0
     while i < len(f):
@@ -312,34 +332,38 @@ def sym_frames(runner, rep):
 
 
 def triage_hang(runner, res, job):
-    """key of a time out: the innermost libutap frame common to the two stack samples (= the frame containing the loop)"""
+    """key of a time out: the deepest libutap frame that is on the stack in >= 90% of the 30 stack samples taken after
+    the budget was exhausted (robust against sampling noise; the frame that contains, or repeatedly enters, the loop)"""
     rep = base64.b64decode(res.payload).decode("utf-8", "replace") if res.payload not in ("-", "") else ""
-    s1 = rep.split("==C01-TIMEOUT-SAMPLE-1==")[-1].split("==C01-TIMEOUT-SAMPLE-2==")
+    parts = rep.split("==C01-TIMEOUT-SAMPLE==")[1:]
     stacks = []
-    for part in s1[:2]:
+    for part in parts:
         fr = sym_frames(runner, part)
-        ut = [(fn, loc) for _, fn, loc in fr if is_utap_frame(fn, loc)]
+        ut = [(short_name(fn), loc) for _, fn, loc in fr if is_utap_frame(fn, loc)]
         ut.reverse()  # outermost first
-        stacks.append(ut)
-    top = None
-    if len(stacks) == 2 and stacks[0] and stacks[1]:
-        common = []
-        for a, b_ in zip(stacks[0], stacks[1]):
-            if a[0] != b_[0]:
-                break
-            common.append(a)
-        common = [c for c in common if not ACCESSOR.search(short_name(c[0])) and not ACCESSOR.search(c[0])]
-        if common:
-            top = common[-1]
-    elif stacks and stacks[0]:
-        top = stacks[0][0]
-    text = []
-    for k, part in enumerate(s1[:2]):
-        text.append("stack sample %d at the time out (innermost first):" % (k + 1))
-        for n, fn, loc in sym_frames(runner, part)[:14]:
+        if ut:
+            stacks.append(ut)
+    top, prefix, depth = None, [], 0
+    while stacks:
+        cnt = {}
+        for st in stacks:
+            if len(st) > depth and [f for f, _ in st[:depth]] == prefix:
+                cnt.setdefault(st[depth][0], []).append(st[depth][1])
+        if not cnt:
+            break
+        fn, locs = sorted(cnt.items(), key=lambda kv: (-len(kv[1]), kv[0]))[0]
+        if len(locs) < 0.9 * len(stacks):
+            break
+        prefix.append(fn)
+        if not ACCESSOR.search(fn):
+            top = (fn, sorted(locs)[0])
+        depth += 1
+    text = ["%d stack samples after the CPU budget was exhausted; frame present in >= 90%%: %s" % (len(stacks), " > ".join(prefix))]
+    for k, part in enumerate(parts[:2]):
+        text.append("stack sample %d (innermost first):" % (k + 1))
+        for n, fn, loc in sym_frames(runner, part)[:12]:
             text.append("    #%d %s %s" % (n, fn, loc))
-    cr = Crash("hang", res.outcome, [], top or (job.entry_name(), ""), "\n".join(text))
-    return cr
+    return Crash("hang", res.outcome, [], top or (job.entry_name(), ""), "\n".join(text))
 
 
 def triage(runner, res, job):
@@ -365,6 +389,9 @@ def triage(runner, res, job):
         san = res.outcome
     if re.search(r"rss limit|out of memory|allocation-size-too-big|failed to allocate|cannot allocate", rep, re.I) or "out-of-memory" in san:
         return Crash("oom", san, [], None, rep)
+    if not rep.strip() and res.outcome in ("crash:signal:9", "crash:harness-lost"):
+        # killed from outside (kernel OOM killer, operator) without any report: environment, not the library
+        return Crash("oom", res.outcome, [], None, rep)
     frames = sym_frames(runner, rep)
     for n, fn, loc in SYM_FRAME.findall(rep):  # already symbolised frames (UBSan may do that)
         frames.append((int(n), fn, loc))
@@ -773,10 +800,14 @@ DEEP = {
 
 
 def deep_triple(name, thorough):
-    """n such that n, 2n, 4n are measured for growth: the largest `round` n whose 4n-input stays below a byte budget"""
+    """n such that n, 2n, 4n are measured for growth: the largest `round` n whose 4n-input stays below a byte budget.
+    The PrettyPrinter families are quadratic (string concatenation): their sizes stay either far below or far above the
+    point where the CPU budget is reached (about 45 000 operands), so that the verdict never depends on machine load."""
     unit = max(1.0, len(DEEP[name][4](200)) / 200.0)
+    if DEEP[name][2] == "pretty":
+        return [2500]
     out = []
-    for cap in ((100e3, 1600e3) if thorough else (100e3,)):
+    for cap in ((64e3, 1600e3) if thorough else (64e3,)):
         n = 25
         for cand in (25, 50, 100, 250, 500, 1000, 2500, 5000, 10000, 25000, 50000, 100000):
             if 4 * cand * unit <= cap:
@@ -791,7 +822,11 @@ def deep_sizes(name, thorough):
     sizes = {100, 1000}
     for n in deep_triple(name, thorough):
         sizes |= {n, 2 * n, 4 * n}
-    if not pretty and unit * 1e5 <= 450e3:
+    if pretty:
+        if thorough:
+            sizes |= {200000, 400000}
+        return sorted(sizes)
+    if unit * 1e5 <= 450e3:
         sizes.add(100000)
     if thorough:
         if unit * 1e5 <= 3e6:
@@ -860,13 +895,22 @@ def build_stream(ctx, log):
                 jobs.append(Job("seed", "part", nx, "tiga", "S_PROPERTY", ctx_model, text))
                 jobs.append(Job("seed", "part", nx, "doc", "S_PROPERTY", CTX_DECL, text))
     # every part x builder x syntax on a handful of generic texts (all xta_part_t values are exercised)
-    generic = ["", " ", "x", "x > 1", "i = 1", "c!", "int k", "k : int[0,1]", "system P;", "int v; process P(){state A; init A;} system P;",
-               "P1 = P();", "A[] true", ";", "(", "{", "1 : 2"]
+    generic = ["", "x", "x > 1", "i = 1", "c!", "int k", "k : int[0,1]", "system P;", "P1 = P();", "A[] true", "(", "1 : 2"]
+    if T:
+        generic += [" ", "int v; process P(){state A; init A;} system P;", ";", "{", "}", "i++", "x' == 1", "\"s\""]
     for part in PARTS:
         for nx in (1, 0):
             for bld in ("doc", "pretty", "tiga"):
                 for g in generic:
                     jobs.append(Job("seed", "part", nx, bld, part, (CTX_DECL if nx else CTX_DECL_OLD) if bld != "tiga" else ctx_model, g))
+            # the same entry point on a fresh builder (no enclosing template / edge / instance line)
+            for bld in ("doc", "pretty"):
+                for g in generic:
+                    jobs.append(Job("seed", "partraw", nx, bld, part, b"", g))
+    for entry, part, syn, text in snippets:
+        if entry == "part":
+            nx = 0 if syn == "old" else 1
+            jobs.append(Job("seed", "partraw", nx, "doc", part, CTX_DECL if nx else CTX_DECL_OLD, text))
 
     # ---- (a) XML structure mutation ------------------------------------------------------------
     xm = []
@@ -881,8 +925,8 @@ def build_stream(ctx, log):
         if T:
             for e, nx, bld in XML_CFGS[1:]:
                 jobs.append(Job("xmlmut", e, nx, bld, "-", b"", data, tag=tag))
-        elif (k + seed) % 3 != 0:
-            e, nx, bld = XML_CFGS[1 + (k // 3 + seed) % (len(XML_CFGS) - 1)]
+        elif (k + seed) % 4 == 0:
+            e, nx, bld = XML_CFGS[1 + (k // 4 + seed) % (len(XML_CFGS) - 1)]
             jobs.append(Job("xmlmut", e, nx, bld, "-", b"", data, tag=tag))
 
     # ---- (b) token mutation -----------------------------------------------------------------------
@@ -902,7 +946,7 @@ def build_stream(ctx, log):
                 blocks.append((nm, "prop", "-", (1,), data, el.text, emb))
             else:
                 c = "" if kind in ("S_DECLARATION",) else mctx
-                blocks.append((nm, "part", kind, (1, 0) if kind in OLD_OK else (1,), c, el.text, emb))
+                blocks.append((nm, "part", kind, (1, 0) if (kind in OLD_OK or T) else (1,), c, el.text, emb))
     for entry, part, syn, text in snippets:
         nxs = (1, 0) if syn == "both" else ((1,) if syn == "new" else (0,))
         def emb2(newtext, entry=entry, part=part):
@@ -929,14 +973,15 @@ def build_stream(ctx, log):
     if not T:
         must = [j for op, j in tm if op in ("del",)]
         rest = [j for op, j in tm if op not in ("del",)]
-        tm_jobs = must + take(rest, 9000, seed)
-        tx = [t for t in tx if t[0] == "del"][seed % 2::2] + take([t for t in tx if t[0] != "del"], 2500, seed + 1)
+        tm_jobs = must + take(rest, 3500, seed)
+        tx = [t for t in tx if t[0] == "del"][seed % 2::2] + take([t for t in tx if t[0] != "del"], 1200, seed + 1)
     else:
         tm_jobs = [j for _, j in tm]
+        tx = [t for t in tx if t[0] == "del"] + take([t for t in tx if t[0] != "del"], 24000, seed + 1)
     jobs += tm_jobs
     # a share of the mutants also through the other builders
     for k, j in enumerate(tm_jobs):
-        if T or (k + seed) % 6 == 0:
+        if T or (k + seed) % 8 == 0:
             if j.entry == "prop":
                 jobs.append(Job("tokmut", "part", j.newxta, "pretty", "S_PROPERTY", b"", j.input, tag=j.tag))
             else:
@@ -955,8 +1000,8 @@ def build_stream(ctx, log):
         for cut in range(off, len(data), step):
             tr.append(Job("trunc", "xmlbuf", 1, "doc", "-", b"", data[:cut], tag="%s:%d" % (nm, cut)))
             if T:
-                tr.append(Job("trunc", "xmlfile", 0, "doc", "-", b"", data[:cut], tag="%s:%d" % (nm, cut)))
-                tr.append(Job("trunc", "xmlbuf", 1, "pretty", "-", b"", data[:cut], tag="%s:%d" % (nm, cut)))
+                tr.append(Job("trunc", "xmlfile" if cut % 2 else "xmlbuf", 0, "doc" if cut % 4 < 2 else "pretty", "-", b"", data[:cut],
+                              tag="%s:%d" % (nm, cut)))
             elif cut % 5 == seed % 5:
                 tr.append(Job("trunc", "xmlfile", 0, "pretty", "-", b"", data[:cut], tag="%s:%d" % (nm, cut)))
     for origin, entry, part, nxs, c, text, emb in blocks:
@@ -973,12 +1018,12 @@ def build_stream(ctx, log):
                 else:
                     tr.append(Job("trunc", entry, nxs[0], "pretty", part, c, tb[:cut]))
     if not T:
-        tr = take(tr, 7000, seed)
+        tr = take(tr, 3500, seed)
     jobs += tr
 
     # ---- (d) random byte noise -------------------------------------------------------------------------
     special = [0, 0xFF, ord("<"), ord("&"), ord('"'), ord("'"), ord("\n"), ord(">"), ord("/"), ord(";"), ord("{"), ord("("), 0x80, 0xC3]
-    n_noise = 40000 if T else 3000
+    n_noise = 40000 if T else 2000
 
     def noisy(b):
         b = bytearray(b)
@@ -1130,34 +1175,38 @@ def run_stream(ctx, b):
             fam[j.family] = fam.get(j.family, 0) + 1
         log("c01 stream: %d inputs %r (generation %.1fs)" % (len(jobs), fam, time.time() - t0))
         t1 = time.time()
-        results = runner.run(jobs)
+        # the deep family is what the growth measurement is about: it runs once, with the 5x budget right away
+        results = runner.run(jobs, mult=[RERUN_MULT if j.family == "deep" else 1 for j in jobs])
         t_run = time.time() - t1
         log("c01 stream: executed in %.1fs" % t_run)
 
         # -- timeouts: re-run alone with 5x the budget (the two smallest inputs per hang site) ----------------
-        tmo = [i for i, r in enumerate(results) if r.outcome.startswith("timeout")]
+        tmo = [i for i, r in enumerate(results) if r.outcome.startswith("timeout") and jobs[i].family != "deep"]
         first_timeouts = len(tmo)
         slow_ok = 0
-        unconfirmed = {}
         if tmo:
             groups = {}
             for i in tmo:
                 groups.setdefault(triage_hang(runner, results[i], jobs[i]).key, []).append(i)
-            rerun = []
+            rerun, later = [], {}
             for k in sorted(groups):
                 g = sorted(groups[k], key=lambda i: (len(jobs[i].input), i))
                 rerun += g[:2]
-                for i in g[2:]:
-                    unconfirmed[i] = g[0]
+                later[k] = g
             rr = runner.run([jobs[i] for i in rerun], mult=RERUN_MULT, nproc=max(2, core.NCPU // 2), batch=1)
             for i, r in zip(rerun, rr):
                 results[i] = r
-                if not r.failed:
-                    slow_ok += 1
-            for i, rep_i in unconfirmed.items():   # same loop site as a re-run input: takes that verdict
-                if not results[rep_i].outcome.startswith("timeout"):
-                    results[i] = Res("ok", "slow-within-5x-budget(not re-run)", results[i].wall, results[i].cpu)
-                    slow_ok += 1
+            # a site whose representatives did not hang again: its other inputs are re-run as well (they are merely slow);
+            # a site that is confirmed is reported once, its other inputs stay counted as time outs of that site
+            more = []
+            for k, g in later.items():
+                if not any(results[i].outcome.startswith("timeout") for i in g[:2]):
+                    more += g[2:]
+            if more:
+                rr = runner.run([jobs[i] for i in more], mult=RERUN_MULT, nproc=max(2, core.NCPU // 2), batch=1)
+                for i, r in zip(more, rr):
+                    results[i] = r
+            slow_ok = sum(1 for i in tmo if not results[i].failed)
         # -- triage ----------------------------------------------------------------------------------------
         by_key = {}
         oom = 0
@@ -1206,13 +1255,14 @@ def run_stream(ctx, b):
         # -- report each distinct key once (smallest witness, shrunk unless the key is already listed) -------
         known = {k["key"] for k in ctx.known_db if k.get("status") == "known"}
         findings = {}
+        shrink_deadline = time.time() + 150.0   # all unknown keys together
         for key in sorted(by_key):
             lst = sorted(by_key[key], key=lambda t: (t[0], t[1]))
             ln, i, cr = lst[0]
             j, r = jobs[i], results[i]
-            if key not in known and cr.kind in ("crash", "stack-overflow") and len(j.input) > 8:
+            if key not in known and cr.kind in ("crash", "stack-overflow") and len(j.input) > 8 and time.time() < shrink_deadline:
                 try:
-                    j2 = shrink(runner, j, key, 30.0)
+                    j2 = shrink(runner, j, key, min(30.0, shrink_deadline - time.time()))
                     if j2 is not j:
                         r2 = runner.run([j2], nproc=1)[0]
                         cr2 = triage(runner, r2, j2)
@@ -1255,6 +1305,37 @@ def run_stream(ctx, b):
         }
         log("c01 stream: outcomes %r, %d failure keys, total %.1fs" % (cov["outcomes"], len(findings), time.time() - t0))
         return cov
+    finally:
+        runner.close()
+
+
+def triage_inputs(ctx, b, items):
+    """Run inputs found elsewhere (e.g. by the stack-discipline tracing of part A) through this harness and report every
+    failing one through ctx.finding with the keying of this module.  items: [{"entry": "parse_XTA" | "parse_XTA_part"
+    (fresh builder, exactly parse_XTA(str, builder, newxta, part, xpath)) | "parse_XTA_part_in_context" | "parseProperty" |
+    "parse_XML_buffer" | "parse_XML_file" (or the short names of this module), "newxta": bool, "builder": "doc"|"tiga"|"pretty",
+    "part": name or None, "input_text": str (or "input_b64"), "family": str, optional "ctx_text"}].
+    Returns [(key or None, outcome)] aligned with items."""
+    runner = Runner(b, ctx.log)
+    try:
+        jobs = [job_from_replay(it) for it in items]
+        idx = [i for i, j in enumerate(jobs) if b"import" not in j.input and b"import" not in j.ctx]
+        rs = runner.run([jobs[i] for i in idx])
+        out = [(None, "skipped:import")] * len(jobs)
+        for i, r in zip(idx, rs):
+            j = jobs[i]
+            if r.outcome.startswith("timeout"):
+                r = runner.run([j], mult=RERUN_MULT, nproc=1)[0]
+            if not r.failed:
+                out[i] = (None, r.outcome)
+                continue
+            cr = triage(runner, r, j)
+            if cr.kind == "oom":
+                out[i] = (None, "oom(ignored)")
+                continue
+            ctx.finding(cr.key, _what(j, cr), j.replay_obj(_observed(r, cr)))
+            out[i] = (cr.key, r.outcome.split(" ")[0])
+        return out
     finally:
         runner.close()
 
